@@ -413,8 +413,10 @@ impl<'a, T> ChordsV2<'a, T> {
                         .all(|pk| accumulated_presses.contains(pk))
                     {
                         let ach = get_active_chord(cch, since, coord, relevant_release_found);
-                        let overflow = self.active_chords.push(ach);
-                        assert!(overflow.is_ok(), "active chords has room");
+                        if self.active_chords.push(ach).is_err() {
+                            // No room for another active chord: leave the keys to the layout.
+                            no_chord_activations!(self);
+                        }
                         break;
                     }
                 }
@@ -446,8 +448,9 @@ impl<'a, T> ChordsV2<'a, T> {
                         Some(cch) => {
                             let coord = self.next_coord();
                             let ach = get_active_chord(cch, since, coord, relevant_release_found);
-                            let overflow = self.active_chords.push(ach);
-                            assert!(overflow.is_ok(), "active chords has room");
+                            if self.active_chords.push(ach).is_err() {
+                                no_chord_activations!(self);
+                            }
                         }
                         None => no_chord_activations!(self),
                     }
@@ -501,8 +504,9 @@ impl<'a, T> ChordsV2<'a, T> {
                 Some(cch) => {
                     let ach =
                         get_active_chord(cch, since, self.next_coord(), relevant_release_found);
-                    let overflow = self.active_chords.push(ach);
-                    assert!(overflow.is_ok(), "active chords has room");
+                    if self.active_chords.push(ach).is_err() {
+                        no_chord_activations!(self);
+                    }
                 }
                 None => {
                     no_chord_activations!(self)
